@@ -42,9 +42,11 @@ def read_src(rel: str) -> str:
 def parse_py(rel: str) -> ast.Module:
     if rel not in _ast_cache:
         try:
-            _ast_cache[rel] = ast.parse(read_src(rel), filename=rel)
+            mod = ast.parse(read_src(rel), filename=rel)
         except SyntaxError as e:
             raise AnalysisError(f"{rel} does not parse: {e}")
+        from . import localnames
+        _ast_cache[rel] = localnames.canonicalise(rel, mod)
     return _ast_cache[rel]
 
 
